@@ -205,6 +205,180 @@ fn cff2_deep_fields(out: &mut Vec<Field>, d: &[u8], hs: usize, tl: usize, rng: &
     }
 }
 
+/// Subroutine fan-out: a subroutine INDEX rewritten in place (same byte span, so nothing else
+/// moves) as ten subroutines of which the first nine consist of calls to the next one, plus a
+/// glyph program that consists of calls to the first. Nesting stays within the interpreter's
+/// limit of ten while the number of calls is the product of the call counts per level - work
+/// out of proportion to the bytes involved. Two writes: the caller adds both.
+pub fn cff_subr_bomb(tag: &str, d: &[u8], rng: &mut Rng) -> Option<Vec<Field>> {
+    use crate::sfnt_check::{cff_dict, cff_index};
+    let n = d.len();
+    let cff2 = tag == "CFF2";
+    // (index start, index end, global?) candidates and the CharStrings objects
+    let mut cands: Vec<(usize, usize, bool)> = Vec::new();
+    let glyphs: Vec<(usize, usize)>;
+    if cff2 {
+        let hs = usize::from(*d.get(2)?);
+        let tl = be16(d, 3)?;
+        let dict = cff_dict(d.get(hs..hs + tl)?);
+        let find = |op: u16| dict.iter().find(|(o, _)| *o == op).and_then(|(_, v)| v.last().copied());
+        if let Some((c, _, _, end)) = cff2_index(d, hs + tl) {
+            if c > 0 {
+                cands.push((hs + tl, end, true));
+            }
+        }
+        // local subroutines of the first font DICT (only if every glyph uses it)
+        if find(0x0c25).is_none() {
+            if let Some((_, _, fobjs, _)) = find(0x0c24).and_then(|o| cff2_index(d, o.max(0) as usize)) {
+                if let Some(&(a, b)) = fobjs.first() {
+                    let fd = cff_dict(d.get(a..b)?);
+                    if let Some((_, v)) = fd.iter().find(|(o, _)| *o == 18) {
+                        if let [size, off] = v[..] {
+                            let (size, off) = (size.max(0) as usize, off.max(0) as usize);
+                            let pd = cff_dict(d.get(off..off + size)?);
+                            if let Some(so) = pd.iter().find(|(o, _)| *o == 19).and_then(|(_, v)| v.last().copied()) {
+                                let at = off + so.max(0) as usize;
+                                if let Some((c, _, _, end)) = cff2_index(d, at) {
+                                    if c > 0 {
+                                        cands.push((at, end, false));
+                                    }
+                                }
+                            }
+                        }
+                    }
+                }
+            }
+        }
+        let (_, _, objs, _) = cff2_index(d, find(17)?.max(0) as usize)?;
+        glyphs = objs;
+    } else {
+        let hdr = usize::from(*d.get(2)?);
+        let names = cff_index(d, hdr)?;
+        let tops = cff_index(d, names.end)?;
+        let &(ts, te) = tops.objs.first()?;
+        let dict = cff_dict(d.get(ts..te)?);
+        let find = |op: u16| dict.iter().find(|(o, _)| *o == op).map(|(_, v)| v.clone());
+        let strings = cff_index(d, tops.end)?;
+        if let Some(gs) = cff_index(d, strings.end) {
+            if gs.count > 0 {
+                cands.push((strings.end, gs.end, true));
+            }
+        }
+        if find(0x0c1e).is_none() {
+            // name-keyed: one Private DICT
+            if let Some(v) = find(18) {
+                if let [size, off] = v[..] {
+                    let (size, off) = (size.max(0) as usize, off.max(0) as usize);
+                    if let Some(pd) = d.get(off..off + size) {
+                        let pd = cff_dict(pd);
+                        if let Some(so) = pd.iter().find(|(o, _)| *o == 19).and_then(|(_, v)| v.last().copied()) {
+                            let at = off + so.max(0) as usize;
+                            if let Some(ix) = cff_index(d, at) {
+                                if ix.count > 0 {
+                                    cands.push((at, ix.end, false));
+                                }
+                            }
+                        }
+                    }
+                }
+            }
+        }
+        let cs = cff_index(d, find(17)?.last().copied()?.max(0) as usize)?;
+        glyphs = cs.objs;
+    }
+    if cands.is_empty() || glyphs.is_empty() {
+        return None;
+    }
+    let &(at, end, global) = rng.pick(&cands);
+    if end > n || end <= at {
+        return None;
+    }
+    let span = end - at;
+    let cnt = if cff2 { 4 } else { 2 };
+    // pick the offset size that leaves an even number of data bytes (CFF2 programs have no
+    // terminator, so every byte of every object is executed)
+    let off_size = [4usize, 3]
+        .into_iter()
+        .find(|os| span >= cnt + 1 + 11 * os + 18 && (span - (cnt + 1 + 11 * os)) % 2 == 0)?;
+    let data_len = span - (cnt + 1 + 11 * off_size);
+    let cap = *rng.pick(&[2usize, 6, 24, 1000]);
+    let per = (data_len / 9) & !1;
+    let call = if global { 29u8 } else { 10u8 };
+    let mut objs: Vec<Vec<u8>> = Vec::new();
+    let mut used = 0;
+    for i in 0..9usize {
+        // the last caller takes the remainder (CFF: minus one byte for the leaf's `return`)
+        let room = if i == 8 { data_len - used - if cff2 { 0 } else { 1 } } else { per };
+        let k = if cff2 { room / 2 } else { (room.saturating_sub(1) / 2).min(cap).max(1) };
+        let mut o = Vec::with_capacity(room);
+        for _ in 0..k {
+            // biased index: i + 1 - 107 as a one byte operand
+            o.push((i as i32 + 1 - 107 + 139) as u8);
+            o.push(call);
+        }
+        if !cff2 {
+            o.push(11);
+            o.resize(room.max(o.len()), 11);
+        }
+        used += o.len();
+        objs.push(o);
+    }
+    let _ = cap;
+    objs.push(if cff2 { Vec::new() } else { vec![11; data_len.saturating_sub(used)] });
+    let total: usize = objs.iter().map(|o| o.len()).sum();
+    if total != data_len {
+        return None;
+    }
+    let mut ix: Vec<u8> = Vec::with_capacity(span);
+    if cff2 {
+        ix.extend_from_slice(&10u32.to_be_bytes());
+    } else {
+        ix.extend_from_slice(&10u16.to_be_bytes());
+    }
+    ix.push(off_size as u8);
+    let mut o = 1usize;
+    for k in 0..=10 {
+        ix.extend_from_slice(&(o as u32).to_be_bytes()[4 - off_size..]);
+        if k < 10 {
+            o += objs[k].len();
+        }
+    }
+    for ob in &objs {
+        ix.extend_from_slice(ob);
+    }
+    if ix.len() != span {
+        return None;
+    }
+    // the glyph program: calls of subroutine 0
+    let even: Vec<usize> = (0..glyphs.len().min(2000))
+        .filter(|&g| {
+            let (s, e) = glyphs[g];
+            e <= n && e > s + 4 && (!cff2 || (e - s) % 2 == 0)
+        })
+        .collect();
+    if even.is_empty() {
+        return None;
+    }
+    let g = *rng.pick(&even);
+    let (s, e) = glyphs[g];
+    let m = ((e - s - usize::from(!cff2)) / 2).min(if cff2 { usize::MAX } else { *rng.pick(&[1usize, 4, 1000]) });
+    let mut prog = Vec::with_capacity(e - s);
+    for _ in 0..m {
+        prog.push((0 - 107 + 139) as u8);
+        prog.push(call);
+    }
+    if !cff2 {
+        prog.push(14);
+    } else if prog.len() != e - s {
+        return None;
+    }
+    let t = if cff2 { "CFF2" } else { "CFF" };
+    Some(vec![
+        Field { name: format!("{}.subrs.fanout#g{}", t, g), off: at, width: 1, bytes: Some(ix) },
+        Field { name: format!("{}.charstring.fanoutCalls#g{}", t, g), off: s, width: 1, bytes: Some(prog) },
+    ])
+}
+
 /// CharStrings, charset, FDSelect, Private DICT and local subroutines of a CFF table.
 fn cff_deep_fields(out: &mut Vec<Field>, d: &[u8], rng: &mut Rng) {
     use crate::sfnt_check::{cff_dict, cff_index};
